@@ -45,7 +45,7 @@ def run_cmd(cmd, timeout, cwd=None, log=None):
     t0 = time.time()
     try:
         p = subprocess.Popen(cmd, cwd=cwd, stdout=subprocess.PIPE, stderr=subprocess.STDOUT, text=True,
-                             preexec_fn=_limits)
+                             errors='replace', preexec_fn=_limits)
         try:
             out, _ = p.communicate(timeout=timeout)
             rc = p.returncode
@@ -74,7 +74,7 @@ def run_portfolio(cmds, timeout, log=None):
         f = None
         try:
             import tempfile
-            f = tempfile.TemporaryFile(mode='w+')
+            f = tempfile.TemporaryFile(mode='w+', errors='replace')
             p = subprocess.Popen(c, stdout=f, stderr=subprocess.STDOUT, text=True, preexec_fn=_limits)
             procs.append([p, f, c, None])
         except OSError as e:
@@ -317,7 +317,18 @@ def do_check(unit, check, cfile, sdir, known, verbose=False):
     can, unw, real = classify(props)
     r.canaries = len(can)
     # vacuity guards
-    bad_can = [p for p in can if p['status'] != 'FAILURE']
+    # every "... end" canary (end of the harness) must be reachable; entry canaries must be reachable for the enforced
+    # function of a dfcc check, and are merely reported for callees that a particular bounded configuration never executes
+    def _must(p):
+        if p['desc'].rstrip().endswith(' end'):
+            return True
+        if kind == 'dfcc':
+            return any((f + ' entry') in p['desc'] for f in check.get('enforce', []))
+        return False
+    bad_can = [p for p in can if p['status'] != 'FAILURE' and _must(p)]
+    if check.get('canaries', 1) and not [p for p in can if p['desc'].rstrip().endswith(' end')]:
+        r.reason = 'vacuity guard: no end-of-harness canary present in the run'
+        return r
     if check.get('canaries', 1) and not can:
         r.reason = 'vacuity guard: no canary assertion present in the run'
         return r
@@ -363,7 +374,7 @@ def do_check(unit, check, cfile, sdir, known, verbose=False):
         if isinstance(res2, str):
             r.reason = 'exclusion pass: ' + res2
             return r
-        props2, _, _, out2, _ = res2
+        props2, _, _, out2, cmd2 = res2
         can2, unw2, real2 = classify(props2)
         if [p for p in can2 if p['status'] != 'FAILURE']:
             r.reason = 'vacuity guard: exclusion predicate makes the canary unreachable'
@@ -373,6 +384,7 @@ def do_check(unit, check, cfile, sdir, known, verbose=False):
         if failed2:
             unexplained = failed2
             out = out2
+            cmd = cmd2
         else:
             r.obligations, r.discharged = len(real2), len(real2)
     if unexplained:
@@ -489,6 +501,7 @@ def main(argv):
     undecided = []
     functions = []
     fires_all = {}
+    scan_all = {}
     trusted = []
     assumptions = []
     enabled = set()
@@ -517,6 +530,7 @@ def main(argv):
             if u.get('functions') is not None or os.path.exists(os.path.join(u['dir'], u.get('spec', 'spec.c'))):
                 info, fires, _ = extract.build_unit(REPO, u['dir'], u, cfile)
                 functions += [dict(i, unit=u['name']) for i in info]
+                scan_all[u['name']] = fires.pop('__assume_scan__', {})
                 fires_all.update({u['name'] + ' ' + k: v for k, v in fires.items()})
             for hook in u.get('pre', []):
                 rc, out, _ = run_cmd([sys.executable, os.path.join(u['dir'], hook), REPO, sdir], 120)
@@ -621,7 +635,7 @@ def main(argv):
            'checker_cmd': './check %s %s  (per check: goto-cc; goto-instrument --dfcc H --enforce-contract F '
                           '--replace-call-with-contract G --apply-loop-contracts; cbmc <flags>)' % (pid, tier),
            'trusted_base': trusted, 'functions_under_contract': functions, 'checks': per_check,
-           'lowering_rule_fires': fires_all, 'samples': samples[:12] or ['(none)'],
+           'lowering_rule_fires': fires_all, 'assume_scan': scan_all, 'samples': samples[:12] or ['(none)'],
            'undecided': [{'unit': a, 'check': b, 'reason': c} for a, b, c in undecided],
            'explanation': 'contract-based deductive verification with CBMC code contracts on function bodies extracted '
                           'from /repo on this run; proof-level obligations and bounded obligations are counted '
@@ -692,7 +706,10 @@ def selftest():
         try:
             if os.path.exists(os.path.join(u['dir'], u.get('spec', 'spec.c'))):
                 info, fires, _ = extract.build_unit(REPO, u['dir'], u, os.path.join(sdir, u['name'] + '.c'))
-                print('unit %-28s %2d function(s) extracted' % (u['name'], len(info)))
+                bad = [k for k, v in fires.get('__assume_scan__', {}).items() if 'must be 0' in k and v]
+                print('unit %-28s %2d function(s) extracted%s' % (u['name'], len(info), '  ASSUME IN INJECTED BLOCK' if bad else ''))
+                if bad:
+                    ok = False
         except extract.ExtractionBreak as e:
             print('unit %s: EXTRACTION BREAK %s' % (u['name'], e))
             ok = False
